@@ -17,12 +17,13 @@ import (
 // J is a JSON object under construction.
 type J = map[string]interface{}
 
-// BIG replaces any integer outside +-2^30. No value computed by a specification
-// equals it, so such an observation is always rejected, without a type error in TLC.
+// BIG replaces any integer outside the range TLC can hold (and a little margin below). No value
+// computed by a specification equals it (they are all > -2^30), so such an observation is always
+// rejected, without a type error in TLC.
 const BIG = -2000000000
 
 func num(x int64) int64 {
-	if x < -(1<<30) || x > 1<<30 {
+	if x < -(1<<30) || x > 1<<31-1 {
 		return BIG
 	}
 	return x
